@@ -329,6 +329,37 @@ Qed.
 (* ---------- a PINGRESP received in time never leads to a disconnect ---------- *)
 From Minimq Require Import VarintProofs ReaderInv Cancel FillWhole PollReads.
 
+(* ---------------------------------------------------------------- reading leaves the broker's side of the world alone *)
+Definition bt (w : world) : N * bytes * N := (w_broker w, w_txbuf w, w_last_arrival w).
+
+Lemma deliver_bt : forall win amt w, bt (fst (deliver win amt w)) = bt w.
+Proof. intros. unfold deliver. destruct (avail_split _ _). reflexivity. Qed.
+
+Lemma io_read_bt : forall win dl w, bt (fst (io_read win dl w)) = bt w.
+Proof.
+  intros. unfold io_read. destruct (N.eqb win 0); [reflexivity|].
+  destruct (next_ev w) as [[k amt] rest].
+  destruct (N.eqb k 1); [reflexivity|]. destruct (N.eqb k 2); [reflexivity|]. destruct (N.eqb k 3); [reflexivity|].
+  destruct (avail_split (w_now w) (w_inq w)) as [av l0]. destruct av as [|a0 av'].
+  - match goal with |- context [if ?c then None else ?t] => destruct (if c then None else t) as [t0|] end; [|reflexivity].
+    cbv zeta. match goal with |- context [avail_split t0 ?q] => destruct (avail_split t0 q) as [av1 l1] end.
+    destruct av1; [reflexivity|]. rewrite deliver_bt. reflexivity.
+  - rewrite deliver_bt. reflexivity.
+Qed.
+
+Lemma fill_bt : forall fuel dl w, bt (fst (fill_packet_reader fuel dl w)) = bt w.
+Proof.
+  induction fuel as [|f IH]; intros dl w; cbn [fill_packet_reader]; [reflexivity|].
+  destruct (packet_available _); [reflexivity|].
+  destruct (receive_buffer (s_reader (w_sess w))) as [r' ow]. destruct ow as [win|]; [|reflexivity].
+  set (w0 := upd_sess w (set_reader (w_sess w) r')).
+  destruct (N.eqb win 0); [reflexivity|].
+  destruct (io_read win dl w0) as [w1 r] eqn:Ei.
+  pose proof (io_read_bt win dl w0) as Hg. rewrite Ei in Hg. cbn [fst] in Hg.
+  destruct r as [d| | |]; cbn [fst]; try exact Hg.
+  destruct d as [|x t]; [exact Hg|]. rewrite IH. exact Hg.
+Qed.
+
 (* PollReads.wait_reads_arrived_packet with the timers in any state that neither fires nor queues now *)
 Lemma wait_reads_arrived_packet_gen : forall f w h rl body t,
   varint_write (lenN body) = Some rl ->
@@ -341,7 +372,7 @@ Lemma wait_reads_arrived_packet_gen : forall f w h rl body t,
   exists w3, wait_for_progress (S f) w = wait_for_progress f w3 /\
     rdata (rd w3) = pkt /\ rplen (rd w3) = Some (lenN pkt) /\ rcap (rd w3) = rcap (rd w) /\
     w_sess w3 = set_reader (w_sess w) (rd w3) /\ w_inq w3 = [] /\ w_script w3 = [] /\ w_now w3 = w_now w /\ w_live w3 = true /\
-    w_wire w3 = w_wire w.
+    w_wire w3 = w_wire w /\ bt w3 = bt w.
 Proof.
   intros f w h rl body t Hrl pkt Hcap Hf HB Hl Hd Hp Hn Hto Hq Hs Hi Ht.
   assert (Hna : packet_available (rd w) = false) by (unfold packet_available; now rewrite Hp).
@@ -360,7 +391,8 @@ Proof.
   rewrite E3. exists w3. split; [reflexivity|]. fold pkt in D3, P3.
   destruct (Wire.fill_same (S f) (next_deadline (s_rt (w_sess w))) w) as [[Hwr [Hlv _]] _]. rewrite E3 in Hlv, Hwr. cbn [fst] in Hlv, Hwr.
   split; [exact D3|]. split; [exact P3|]. split; [exact K3|]. split; [exact S3|]. split; [exact Q3|]. split; [exact C3|]. split; [exact N3|].
-  split; [now rewrite Hlv|exact Hwr].
+  split; [now rewrite Hlv|]. split; [exact Hwr|].
+  pose proof (fill_bt (S f) (next_deadline (s_rt (w_sess w))) w) as Hb. rewrite E3 in Hb. exact Hb.
 Qed.
 
 Theorem poll_pingresp_clears : forall w t t0,
@@ -379,7 +411,7 @@ Proof.
   assert (Hto : ping_timed_out (w_sess w) (w_now w) = false).
   { unfold ping_timed_out. rewrite Hpt. apply N.leb_gt. exact Hlt. }
   assert (Hq : PQ w) by (split; [unfold should_queue_pingreq; rewrite Hpt; reflexivity|apply calm_nil; exact Hs]).
-  destruct (wait_reads_arrived_packet_gen (S (S (S (S f)))) w 208 [0] [] t eq_refl) as [w3 [E3 [D3 [P3 [K3 [S3 [Q3 [C3 [N3 [L3 W3]]]]]]]]]];
+  destruct (wait_reads_arrived_packet_gen (S (S (S (S f)))) w 208 [0] [] t eq_refl) as [w3 [E3 [D3 [P3 [K3 [S3 [Q3 [C3 [N3 [L3 [W3 _]]]]]]]]]]];
     try assumption; try (cbn; unfold BIG; lia).
   change (208 :: [0] ++ []) with [208; 0] in *. change (lenN [208; 0]) with 2 in *.
   rewrite E3. clear E3.
